@@ -20,8 +20,12 @@
   * The allocation sizes and the `memmove` byte count of `String_Rem` are *parameters* (`Params`): the translator
     regenerates them from src/String.c on every run (CelloGen/Str.lean), `Params.modelled` is what this model was
     written against, and the theorems are proved for every `Params` that satisfies `Params.Lawful`.
-  * Operands are C strings passed by value (`c_str(obj)` of another object): `List UInt8` without NUL.
-    Aliased operands (`concat(s, s)`) are outside the property and outside the model.
+  * Operands: `assign / concat / append / rem / format` take the C string `c_str(obj)` by value (`List UInt8` without
+    NUL) — the case in which the operand's bytes do not lie in the target's allocation.  The operand forms that DO point
+    into the target's allocation (`Src.self`: `obj` is the target; `Src.view off`: `obj` is e.g. `$S(c_str(s) + off)`) are
+    modelled by `assignA / concatA / formatA / remA` and the histories `AOp / stepA / runA`: `realloc` may move the block
+    (`mv`), the old block is then freed and a read through the stale pointer is the outcome `ub` (known finding
+    KF-C16-alias-operand; CelloProofs/Props/C16.lean `C16_alias_*`).
 -/
 namespace Cello.Str
 
@@ -156,10 +160,18 @@ inductive Exc where
   | FormatError     -- `print_to_with`: a `format_to` returned a negative value
 deriving Repr, DecidableEq, Inhabited
 
+/-- why a call has undefined behaviour -/
+inductive UB where
+  | useAfterFree            -- a read through a pointer into the block that `realloc` has freed
+  | overlap                 -- `strcpy` / `strcat` / `vsprintf` between overlapping objects (ISO C 7.24.2.3, 7.24.3.1, 7.21.6.6)
+  | outOfBounds             -- a read or a write outside the allocation current at that moment
+deriving Repr, DecidableEq, Inhabited
+
 inductive Outcome where
   | ok (ret : Nat)          -- normal return (`ret`: the `int` returned by `format_to`, 0 for `void`)
   | raised (e : Exc)
   | rejected                -- `format_to` returned a negative value: libc rejects the format (`String_Format_To` after a626877)
+  | ub (why : UB)           -- undefined behaviour in C: what follows is not determined by the source (operands that alias the target)
 deriving Repr, DecidableEq, Inhabited
 
 structure Res where
@@ -170,6 +182,14 @@ deriving Repr, Inhabited
 
 /-- no access of the operation left the allocation (otherwise: undefined behaviour in C) -/
 def Res.safe (r : Res) : Bool := r.log.all Acc.inBounds
+
+/-- the outcome is one of the undefined ones -/
+def Outcome.isUB : Outcome → Bool
+  | .ub _ => true
+  | _ => false
+
+/-- the call is defined: no access left the allocation and nothing else undefined happened -/
+def Res.defined (r : Res) : Bool := r.safe && !r.out.isUB
 
 /-! ## the operations of src/String.c -/
 
@@ -319,6 +339,272 @@ def run (P : Params) (J : Nat → Byte) : Str → List Op → Str × List Res
     let (s', rs) := run P J r.st ops
     (s', r :: rs)
 
+/-! ## operands that alias the target (known finding KF-C16-alias-operand)
+
+  `c_str(obj)` of the operand of `assign / concat / append / rem` and of a `%s` argument of a formatted write is a POINTER.
+  Above it is taken by value, which is what the C code does whenever the bytes it points to lie outside the target's
+  allocation.  When they lie inside it — `assign(s, s)`, `concat(s, $S(c_str(s) + 2))`, `print_to(s, 3, "%s", s)` — the
+  pointer's fate depends on `realloc`: the block may move (`mv = true`; the old block is freed, the new one holds a copy
+  of its first `min old new` bytes) or stay where it is (`mv = false`; a pointer into it keeps pointing at the same
+  offset of the now resized block).  The functions below mirror src/String.c statement by statement for such operands:
+  which pointer is computed when, what it points to at the moment libc reads through it. -/
+
+/-- the operand `obj` as `c_str(obj)` sees it -/
+inductive Src where
+  /-- a C string whose bytes do not lie in the target's allocation -/
+  | val (x : List Byte)
+  /-- `obj` IS the target object: `c_str(obj)` is `s->val` — the one current at the moment `c_str` is called -/
+  | self
+  /-- another object (e.g. the stack String `$S(c_str(s) + off)`) whose `val` was set to `s->val + off` before the call:
+      a pointer into the target's allocation that does not follow a `realloc` -/
+  | view (off : Nat)
+deriving Repr, DecidableEq, Inhabited
+
+/-- **the decidable hypothesis of the main theorems**: the operand's bytes do not lie in the target's allocation -/
+def Src.Disjoint : Src → Prop
+  | .val _ => True
+  | _ => False
+
+instance (src : Src) : Decidable src.Disjoint := by cases src <;> simp only [Src.Disjoint] <;> infer_instance
+
+/-- offset of the operand's pointer in the target's allocation at the moment the call is made (`self`: 0) -/
+def Src.off : Src → Nat
+  | .view off => off
+  | _ => 0
+
+/-- the bytes `c_str(obj)` denotes at the moment the call is made (before anything is reallocated or written) -/
+def Src.read (s : Str) : Src → List Byte
+  | .val x => x
+  | .self => cstrAt s.buf 0
+  | .view off => cstrAt s.buf off
+
+/-- the C string that starts at offset `o` ends (has its terminator) inside the block -/
+def inBlock (buf : List Byte) (o : Nat) : Bool := o + strlen buf o + 1 ≤ buf.length
+
+/-- the byte ranges `[a, a + la)` and `[b, b + lb)` do not meet -/
+def disjointRanges (a la b lb : Nat) : Bool := a + la ≤ b || b + lb ≤ a
+
+/-- `String_Assign(self, obj)` when `val = c_str(obj)` is `s->val + off`:
+    `char* val = c_str(obj); … s->val = realloc(s->val, strlen(val) + 1); strcpy(s->val, val);`
+    — `val` is computed BEFORE the `realloc` and not again. -/
+def assignAt (P : Params) (J : Nat → Byte) (mv : Bool) (s : Str) (off : Nat) : Res :=
+  if !inBlock s.buf off then { st := s, out := .ub .outOfBounds, log := [] }          -- not a string inside the block
+  else
+    let n := strlen s.buf off                                         -- strlen(val): the block is still there
+    let b1 := realloc J s.buf (P.assignSize n)
+    let lg := [Acc.rd off (n + 1) s.buf.length]
+    if mv then
+      { st := ⟨b1⟩, out := .ub .useAfterFree, log := lg }             -- strcpy reads `val`: the block it points into was freed
+    else                                                              -- same address: `val` is offset `off` of the resized block
+      let n' := strlen b1 off
+      if !inBlock b1 off then
+        { st := ⟨b1⟩, out := .ub .outOfBounds, log := lg ++ [.rd off (n' + 1) b1.length] }   -- the terminator was cut off
+      else if !disjointRanges off (n' + 1) 0 (n' + 1) then
+        { st := ⟨b1⟩, out := .ub .overlap, log := lg ++ [.rd off (n' + 1) b1.length] }       -- strcpy of overlapping objects
+      else
+        { st := ⟨writeAt b1 0 (cstrAt b1 off ++ [0])⟩, out := .ok 0,
+          log := lg ++ [.rd off (n' + 1) b1.length, .wr 0 (n' + 1) b1.length] }
+
+/-- `String_Assign(self, obj)` for every operand form -/
+def assignA (P : Params) (J : Nat → Byte) (mv : Bool) (s : Str) : Src → Res
+  | .val x => assign P J s x
+  | .self => assignAt P J mv s 0
+  | .view off => assignAt P J mv s off
+
+/-- `strcat(buf, buf + o)` inside ONE block: destination string at 0, source string at `o`; the source (with its
+    terminator) must not overlap the resulting destination string (ISO C 7.24.3.1) -/
+def strcatWithin (buf : List Byte) (o : Nat) (lg : List Acc) : Res :=
+  let l := strlen buf 0                                               -- the end of the destination
+  let n := strlen buf o
+  if !inBlock buf 0 || !inBlock buf o then
+    { st := ⟨buf⟩, out := .ub .outOfBounds, log := lg ++ [.rd 0 (l + 1) buf.length, .rd o (n + 1) buf.length] }
+  else if !disjointRanges o (n + 1) 0 (l + n + 1) then
+    { st := ⟨buf⟩, out := .ub .overlap, log := lg ++ [.rd 0 (l + 1) buf.length, .rd o (n + 1) buf.length] }
+  else
+    { st := ⟨writeAt buf l (cstrAt buf o ++ [0])⟩, out := .ok 0,
+      log := lg ++ [.rd 0 (l + 1) buf.length, .rd o (n + 1) buf.length, .wr l (n + 1) buf.length] }
+
+/-- `String_Concat(self, obj)` (also `append`) for every operand form:
+    `s->val = realloc(s->val, strlen(s->val) + strlen(c_str(obj)) + 1); strcat(s->val, c_str(obj));`
+    — `c_str(obj)` is called twice: for the size before the `realloc`, for the copy after it.  When `obj` is the target
+    itself the second call returns the NEW `s->val` (so it is `strcat(p, p)` whether the block moved or not); a view keeps
+    the pointer it was built with. -/
+def concatA (P : Params) (J : Nat → Byte) (mv : Bool) (s : Str) : Src → Res
+  | .val x => concat P J s x
+  | .self =>
+    let ls := strlen s.buf 0
+    let b1 := realloc J s.buf (P.concatSize ls ls)
+    strcatWithin b1 0 [.rd 0 (ls + 1) s.buf.length, .rd 0 (ls + 1) s.buf.length]
+  | .view off =>
+    if !inBlock s.buf off then { st := s, out := .ub .outOfBounds, log := [] }
+    else
+      let ls := strlen s.buf 0
+      let lo := strlen s.buf off
+      let b1 := realloc J s.buf (P.concatSize ls lo)
+      let lg := [Acc.rd 0 (ls + 1) s.buf.length, .rd off (lo + 1) s.buf.length]
+      if mv then { st := ⟨b1⟩, out := .ub .useAfterFree, log := lg }  -- strcat reads the view: its block was freed
+      else strcatWithin b1 off lg
+
+/-- `String_Format_To(self, pos, fmt, va)` when the argument of the format's one `%s` is `s->val + off` — what
+    `print_to(s, pos, "%s", obj)` arrives at: `print_to_with` calls `format_to(out, pos, fmt_buf, c_str(a))`, the pointer is
+    computed once, before `String_Format_To` runs.  `render x` = what libc prints for `fmt` when the argument reads `x`.
+    `size = vsnprintf(NULL, 0, fmt, va); s->val = realloc(s->val, pos + size + 1); return vsprintf(s->val + pos, fmt, va);` -/
+def formatAt (P : Params) (J : Nat → Byte) (mv : Bool) (s : Str) (pos : Nat) (render : List Byte → List Byte) (off : Nat) : Res :=
+  if !inBlock s.buf off then { st := s, out := .ub .outOfBounds, log := [] }
+  else
+    let x := cstrAt s.buf off                                         -- vsnprintf measures: the block is still there
+    let size := (render x).length
+    let b1 := realloc J s.buf (P.formatSize pos size)
+    let lg := [Acc.rd off (x.length + 1) s.buf.length]
+    if mv then { st := ⟨b1⟩, out := .ub .useAfterFree, log := lg }    -- vsprintf reads the argument: its block was freed
+    else
+      let x' := cstrAt b1 off
+      if !inBlock b1 off then
+        { st := ⟨b1⟩, out := .ub .outOfBounds, log := lg ++ [.rd off (x'.length + 1) b1.length] }
+      else if !disjointRanges off (x'.length + 1) pos ((render x').length + 1) then
+        { st := ⟨b1⟩, out := .ub .overlap, log := lg ++ [.rd off (x'.length + 1) b1.length] }   -- ISO C 7.21.6.6
+      else
+        { st := ⟨writeAt b1 pos (render x' ++ [0])⟩, out := .ok (render x').length,
+          log := lg ++ [.rd off (x'.length + 1) b1.length, .wr pos ((render x').length + 1) b1.length] }
+
+/-- a formatted write with one `%s` whose argument is `src` -/
+def formatA (P : Params) (J : Nat → Byte) (mv : Bool) (s : Str) (pos : Nat) (render : List Byte → List Byte) : Src → Res
+  | .val x => formatTo P J s pos (render x)
+  | .self => formatAt P J mv s pos render 0
+  | .view off => formatAt P J mv s pos render off
+
+/-- `String_Rem(self, obj)` for every operand form: there is no `realloc`, and every read of `sub = c_str(obj)`
+    (`strstr`, `strlen(sub)` in `count` and in the argument list of `memmove`) happens before the one write (`memmove`, for
+    which overlap is defined) — so an aliased operand is read as the bytes it denotes when the call is made -/
+def remA (P : Params) (s : Str) (src : Src) : Res :=
+  match src with
+  | .val x => rem P s x
+  | .self => rem P s (cstrAt s.buf 0)
+  | .view off => if inBlock s.buf off then rem P s (cstrAt s.buf off) else { st := s, out := .ub .outOfBounds, log := [] }
+
+/-- mutating operations with every operand form -/
+inductive AOp where
+  | assign (src : Src)
+  | concat (src : Src)
+  | append (src : Src)
+  | resize (n : Nat)
+  | clear
+  | rem (src : Src)
+  | format (pos : Nat) (f : List Byte)        -- a formatted write none of whose arguments points into the target
+  | formatS (pos : Nat) (src : Src)           -- `format_to(s, pos, "%s", c_str(obj))`: the `%s` step of `print_to(s, pos, …, obj)`
+deriving Repr, DecidableEq, Inhabited
+
+/-- no operand of the operation points into the target's allocation -/
+def AOp.NoAlias : AOp → Prop
+  | .assign src | .concat src | .append src | .rem src | .formatS _ src => src.Disjoint
+  | _ => True
+
+instance (op : AOp) : Decidable op.NoAlias := by
+  cases op <;> simp only [AOp.NoAlias] <;> infer_instance
+
+/-- the same operation with its operand taken by value: the bytes it denotes when the call is made -/
+def AOp.toOp (s : Str) : AOp → Op
+  | .assign src => .assign (src.read s)
+  | .concat src => .concat (src.read s)
+  | .append src => .append (src.read s)
+  | .resize n => .resize n
+  | .clear => .clear
+  | .rem src => .rem (src.read s)
+  | .format pos f => .format pos f
+  | .formatS pos src => .format pos (src.read s)
+
+/-- for operands given by value the target plays no part in `toOp` -/
+def AOp.plain (op : AOp) : Op := op.toOp ⟨[]⟩
+
+/-- one step; `mv` = does `realloc` move the block in this call (the allocator's choice) -/
+def stepA (P : Params) (J : Nat → Byte) (mv : Bool) (s : Str) : AOp → Res
+  | .assign src => assignA P J mv s src
+  | .concat src => concatA P J mv s src
+  | .append src => concatA P J mv s src
+  | .resize n => resize P J s n
+  | .clear => clear P J s
+  | .rem src => remA P s src
+  | .format pos f => formatTo P J s pos f
+  | .formatS pos src => formatA P J mv s pos id src
+
+/-- a history; `mv i` = the allocator's choice in the `i`-th call.  Like `run`, it goes on after an exception; after an
+    undefined call nothing that follows means anything (the theorems are about histories without one). -/
+def runA (P : Params) (J : Nat → Byte) (mv : Nat → Bool) : Nat → Str → List AOp → Str × List Res
+  | _, s, [] => (s, [])
+  | i, s, op :: ops =>
+    let r := stepA P J (mv i) s op
+    let (s', rs) := runA P J mv (i + 1) r.st ops
+    (s', r :: rs)
+
+/-! ### the repair proposed for KF-C16-alias-operand (not in /repo)
+
+  `String_Assign`:    `size_t n = strlen(val);
+                       if (s->val and val >= s->val and val <= s->val + strlen(s->val)) { memmove(s->val, val, n + 1); val = NULL; }
+                       s->val = realloc(s->val, n + 1);  if (val) { strcpy(s->val, val); }`
+  `String_Concat`:    `char* arg = c_str(obj); size_t n = strlen(s->val), m = strlen(arg);
+                       ptrdiff_t off = (arg >= s->val and arg <= s->val + n) ? arg - s->val : -1;
+                       s->val = realloc(s->val, n + m + 1);
+                       memmove(s->val + n, off >= 0 ? s->val + off : arg, m);  s->val[n + m] = '\0';`
+  `String_Format_To`: `char* tmp = malloc(size + 1); vsprintf(tmp, fmt, va);
+                       s->val = realloc(s->val, pos + size + 1); memcpy(s->val + pos, tmp, size + 1); free(tmp); return size;` -/
+
+/-- `String_Assign` as repaired: an operand inside the target is moved to the front first, then the block is shrunk;
+    no pointer into the old block is used after the `realloc`, so `mv` plays no part -/
+def assignFix (P : Params) (J : Nat → Byte) (s : Str) : Src → Res
+  | .val x => assign P J s x
+  | src =>
+    let off := src.off
+    if !inBlock s.buf off then { st := s, out := .ub .outOfBounds, log := [] }
+    else
+      let n := strlen s.buf off
+      let b0 := writeAt s.buf 0 (readAt s.buf off (n + 1))              -- memmove(s->val, val, n + 1)
+      let b1 := realloc J b0 (P.assignSize n)
+      { st := ⟨b1⟩, out := .ok 0,
+        log := [.rd off (n + 1) s.buf.length, .rd 0 (strlen s.buf 0 + 1) s.buf.length, .rd off (n + 1) s.buf.length,
+                .wr 0 (n + 1) s.buf.length] }
+
+/-- `String_Concat` as repaired: lengths first, the operand's offset in the old block remembered, the operand re-derived
+    from the NEW block after the `realloc`, `memmove` + explicit terminator instead of `strcat` -/
+def concatFix (P : Params) (J : Nat → Byte) (s : Str) : Src → Res
+  | .val x => concat P J s x
+  | src =>
+    let off := src.off
+    if !inBlock s.buf off then { st := s, out := .ub .outOfBounds, log := [] }
+    else
+      let n := strlen s.buf 0
+      let m := strlen s.buf off
+      let b1 := realloc J s.buf (P.concatSize n m)
+      let b2 := writeAt b1 n (readAt b1 off m)                          -- memmove(s->val + n, s->val + off, m)
+      let b3 := writeAt b2 (n + m) [0]                                  -- s->val[n + m] = '\0'
+      { st := ⟨b3⟩, out := .ok 0,
+        log := [.rd 0 (n + 1) s.buf.length, .rd off (m + 1) s.buf.length, .rd off m b1.length, .wr n m b1.length,
+                .wr (n + m) 1 b1.length] }
+
+/-- `String_Format_To` as repaired: the text is formatted into a temporary BEFORE the `realloc` (the arguments are read
+    while the block they may point into is still there), then copied: by value for every operand form -/
+def formatFix (P : Params) (J : Nat → Byte) (s : Str) (pos : Nat) (render : List Byte → List Byte) (src : Src) : Res :=
+  if !inBlock s.buf src.off && !(src matches .val _) then { st := s, out := .ub .outOfBounds, log := [] }
+  else formatTo P J s pos (render (src.read s))
+
+/-- one step of the code with the three repairs -/
+def stepFix (P : Params) (J : Nat → Byte) (_mv : Bool) (s : Str) : AOp → Res
+  | .assign src => assignFix P J s src
+  | .concat src => concatFix P J s src
+  | .append src => concatFix P J s src
+  | .resize n => resize P J s n
+  | .clear => clear P J s
+  | .rem src => remA P s src
+  | .format pos f => formatTo P J s pos f
+  | .formatS pos src => formatFix P J s pos id src
+
+/-- a view used as an operand points into the TEXT of the target (`off ≤ len`: at a character or at the terminator) -/
+def AOp.InText (s : Str) : AOp → Prop
+  | .assign src | .concat src | .append src | .rem src | .formatS _ src => src.off ≤ (cstrAt s.buf 0).length
+  | _ => True
+
+instance (s : Str) (op : AOp) : Decidable (op.InText s) := by
+  cases op <;> simp only [AOp.InText] <;> infer_instance
+
 /-- `print_to(s, pos, fmt, …)`: `print_to_with` cuts the format into fragments and calls `format_to` once per fragment,
     advancing `pos` by each return value. `frags` are the formatted fragments. Returns the final `pos`. -/
 def printTo (P : Params) (J : Nat → Byte) : Str → Nat → List (List Byte) → Str × Nat × List Acc
@@ -362,6 +648,11 @@ instance (x : List Byte) : Decidable (NulFree x) := inferInstanceAs (Decidable (
 
 instance (op : Op) : Decidable op.NulFree := by
   cases op <;> simp only [Op.NulFree] <;> infer_instance
+
+/-- the operand's bytes (read when the call is made) are a C string -/
+def AOp.NulFree (s : Str) (op : AOp) : Prop := (op.toOp s).NulFree
+
+instance (s : Str) (op : AOp) : Decidable (op.NulFree s) := inferInstanceAs (Decidable (op.toOp s).NulFree)
 
 /-- delete the first occurrence of `x` (none when `x` does not occur) -/
 def removeFirst (x : List Byte) : List Byte → Option (List Byte)
